@@ -160,7 +160,7 @@ def shard(tier, sh):
     for a in first[i0:i1]:
         if kind == 'pairs':
             for b in other:
-                if not (name_aligned((a, b)) and role_consistent((a, b))):
+                if not (name_aligned((a, b)) and space.position_consistent((a, b))):
                     continue
                 st.inc('states')
                 eval_pair(alpha, a, b, st)
@@ -168,7 +168,7 @@ def shard(tier, sh):
                     st.sample({'slice': name, 'inputs': [show(a), show(b)]}, 2)
         elif kind == 'triples':
             for b, c in itertools.product(other, repeat=2):
-                if not role_consistent((a, b, c)):
+                if not space.position_consistent((a, b, c)):
                     continue
                 st.inc('states')
                 eval_triple(a, b, c, st)
@@ -190,7 +190,8 @@ def run(tier, seed):
         'traces_validated_against_impl': st.c.get('validated', 0),
         'evaluations': st.c.get('evaluations', 0),
         'distinct_nontrivial': len(st.distinct.get('result', ())) + len(st.distinct.get('outcome', ())),
-        'rule': 'all name-aligned role-consistent pairs / role-consistent triples of the slice universes (filtered '
+        'rule': 'all name-aligned position-consistent pairs / position-consistent triples (a shared name is positional at the same index '
+                '-- positional-only or not -- or keyword-only everywhere) of the slice universes (filtered '
                 'from the full product) x whole call alphabet; every signature for the laws; distinct_nontrivial = '
                 'distinct result shapes + distinct raising pairs',
         'slices': dict((k, {'kind': v[0], 'first_operands': len(v[3]), 'other_operands': len(v[4]) if v[4] else None})
